@@ -256,9 +256,27 @@ def selfcheck(case, build, args, outcome):
         except Exception as e:
             got = ("exc", type(e).__name__)
         _STATS["paths"] += 1
+        if got != want and got[0] == "ok" and want[0] == "ok" and _order_free(got[1]) == _order_free(want[1]):
+            return          # same text up to the order of class members (set iteration order differs between the two runs)
         if got != want:
             _STATS["mismatch"].append("%s args=%r symbolic=%r concrete=%r" % (case, cargs, want, got))
             raise SelfCheckMismatch("%s args=%r symbolic=%r concrete=%r" % (case, cargs, want, got))
+
+
+def _order_free(text):
+    """the parser's tree of a pattern text with the members of every character class sorted"""
+    def walk(x):
+        if isinstance(x, sp.SubPattern):
+            return [walk(y) for y in x]
+        if isinstance(x, tuple) and len(x) == 2 and x[0] is sp.IN:
+            return ("IN", sorted(repr(walk(y)) for y in x[1]))
+        if isinstance(x, (tuple, list)):
+            return [walk(y) for y in x]
+        return str(x)
+    try:
+        return walk(sp.parse(text, FLAGS))
+    except Exception:
+        return ("unparsed", text)
 
 
 class SelfCheckMismatch(Exception):
